@@ -335,6 +335,24 @@ func steps(thorough bool) []step {
 		}
 		return ""
 	}})
+	out = append(out, step{"last-writer.Store through a real file-system backend", func(w *world) string {
+		if len(w.ws) == 0 {
+			return ""
+		}
+		i := w.ws[len(w.ws)-1]
+		dir := filepath.Join(os.Getenv("MCVERIF_SCRATCH"), fmt.Sprintf("c18-%d-store-%d", os.Getpid(), len(w.ws)))
+		defer os.RemoveAll(dir)
+		fsb := storage.NewFileSystem()
+		fsb.Options.Path = dir
+		old := i.w.Storage
+		i.w.Storage = fsb
+		err := i.w.Store(testDoc())
+		i.w.Storage = old
+		if err != nil && !(i.want.NoClobber && strings.Contains(err.Error(), "clobber")) {
+			return "Store through the file-system backend failed: " + err.Error()
+		}
+		return ""
+	}})
 	out = append(out, step{"last-writer.Store", func(w *world) string {
 		if len(w.ws) == 0 {
 			return ""
@@ -544,6 +562,9 @@ func observe(w *world) string {
 		}
 		if o.StoreOptions == nil || o.StoreOptions.NoClobber != i.want.NoClobber {
 			return fmt.Sprintf("writer #%d: StoreOptions=%+v, want NoClobber=%v", k, o.StoreOptions, i.want.NoClobber)
+		}
+		if o.StoreOptions.BackendOptions != nil {
+			return fmt.Sprintf("writer #%d: StoreOptions.BackendOptions=%v, want nil (no constructor option set it)", k, o.StoreOptions.BackendOptions)
 		}
 		if got := o.GetFormatOptions("k"); got != i.want.FmtOpt {
 			return fmt.Sprintf("writer #%d: format options[k]=%v, want %v", k, got, i.want.FmtOpt)
